@@ -55,14 +55,18 @@ def run(ctx):
     need = {"int", "str", "bool", "strs", "empty", "one", "elem", "detached", "mixed", "context", "ucum"}
     if not need <= ok_shapes:
         raise D.Inconclusive("value shapes never evaluated successfully: %s" % sorted(need - ok_shapes))
-    # every unsupported / nil shape (offending leaf first, middle, last at depth 1..3) must occur as the ONLY failing
-    # option of some list, so that accepting it cannot hide behind another option's error
+    # every unsupported / nil shape (offending leaf first, middle, last at depth 1..3) must occur as the ONLY
+    # unsupported-type option of some list, so that accepting it shows (outcome ok, or the class missing from the error)
     bad_ids = {"badTop", "nilTop"} | {k + "-" + a + b + c for k in ("bad", "nil") for a in "FML" for b in ("",) + tuple("FML")
                                       for c in (("",) if b == "" else ("",) + tuple("FML"))}
-    sole = {o["cs"]["focus"][len("fail+"):] for o in obs if o["cs"]["mode"] == "E" and o["cs"]["focus"].startswith("fail+")
-            and o["cs"]["focus"].count("+") == 1}
+    sole = set()
+    for o in obs:
+        if o["cs"]["mode"] == "E" and o["cs"]["focus"].startswith("fail+"):
+            tags = [t for t in o["cs"]["focus"].split("+")[1:] if t.startswith(("bad", "nil"))]
+            if len(tags) == 1:
+                sole.add(tags[0])
     if not bad_ids <= sole:
-        raise D.Inconclusive("unsupported shapes never the only failing option of a list: %s" % sorted(bad_ids - sole)[:10])
+        raise D.Inconclusive("unsupported shapes never the only unsupported option of a list: %s" % sorted(bad_ids - sole)[:10])
     invoked = sum(1 for o in obs if o["calls"])
     blocked = sum(1 for o in obs if want_by_id[o["id"]].get("k") in ("opterr", "cerr"))
     if invoked < 100 or blocked < 1000:
